@@ -10,7 +10,8 @@ MODULES = ["Curtsies.Properties.C20"]
 RULE = ("the decoder's decision tree as in C03 (ascii, latin-1 complete; utf-8 two full levels + boundary alphabets; "
         "three full levels in thorough), every node x full x the three naming modes compared with each other; "
         "every entry of both tables fed whole under every encoding and mode; seeded streams cut under the three "
-        "modes; under utf-16, utf-16-le, utf-32 and cp1252 (real code only) every 1-byte string, 256 x 20 2-byte strings, "
+        "modes; streams ending in an incomplete character / escape sequence (and complete ones) through the real Input "
+        "(Input(keynames=...), unget_bytes, send(0)) compared across the three modes; under utf-16, utf-16-le, utf-32 and cp1252 (real code only) every 1-byte string, 256 x 20 2-byte strings, "
         "structured texts and seeded random streams of <= 10 bytes compared across the three modes; every valid configuration name (C-a..C-z, C-A..C-Z, M-<0x20..0x7e>, M-<3 non-ASCII characters>, F1..F12, SPECIALS, the empty name) and a "
         "catalogue of invalid or unusual ones: the 18 that are malformed under any reading must be rejected or map to "
         "nothing, never to a key the decoder produces (oracle); exact behaviour on all of them tied at representation level. non-trivial = distinct "
@@ -121,6 +122,50 @@ def oracle_stream(a):
     return []
 
 
+def input_outcome(enc, buf, mode):
+    """the stream through the REAL Input (public: Input(keynames=...), unget_bytes, send(0)) -> (keys, 'end' | exception kind)"""
+    got = kc.e2e_segment(buf, enc, mode)
+    if got and isinstance(got[-1], str) and got[-1].startswith("E:"):
+        return got[:-1], got[-1]
+    return got, "end"
+
+
+def oracle_input_modes(a):
+    """through Input the three naming modes return the same number of keypresses and end the same way (drained, or the
+    same kind of exception); bytes naming returns exactly the bytes of each keypress, in order"""
+    enc, buf = a
+    res = {m: input_outcome(enc, buf, m) for m in MODES}
+    bad = []
+    sig = {m: (len(k), end) for m, (k, end) in res.items()}
+    if len(set(sig.values())) != 1:
+        bad.append(("through Input the naming modes cut the stream differently (number of keypresses, how it ends): %r; "
+                    "bytes naming returned %r" % (sig, res["bytes"][0][-3:]), None))
+    keys, end = res["bytes"]
+    if not all(isinstance(k, bytes) for k in keys):
+        bad.append(("through Input bytes naming returned something that is not bytes", None))
+    else:
+        joined = b"".join(keys)
+        if (end == "end" and joined != bytes(buf)) or not bytes(buf).startswith(joined) or any(not k for k in keys):
+            bad.append(("through Input bytes naming does not return exactly the bytes of each keypress: %r for %r" % (keys[-4:], bytes(buf)), None))
+    return bad
+
+
+def input_streams(ctx):
+    """streams ending in an incomplete multi-byte character / incomplete escape sequence, and complete ones"""
+    r = ctx.rng
+    heads = [b"", b"a", b"ab\x1b[A", b"\xe2\x82\xac", b"\x1bOP", b"x\x7f"]
+    tails = {"utf8": [b"\xe2\x88", b"\xe2", b"\xf0\x9f\x98", b"\xf0\x9f", b"\xc3", b"\x1b[1;", b"\x1b[1", b"\x1b[", b"\x1b", b"\x1b\x1b[", b"\xc0", b"\xf8\x80",
+                      b"", b"\xc3\xa9", b"\x1b[1;5C", b"\xff"],
+             "ascii": [b"\x1b[1;", b"\x1b[", b"\x1b", b"\x1b[1;1", b"", b"\xff", b"\x1b[24~", b"z"],
+             "latin1": [b"\x1b[1;", b"\x1b[5", b"\x1b", b"\x1bO", b"", b"\xe9", b"\x1b[Z", b"\xff\xfe"]}
+    out = [(enc, h + t) for enc in ENCS for h in heads for t in tails[enc] if h + t]
+    for enc in ENCS:
+        for _ in range(600 if ctx.thorough else 150):
+            body = bytes(r.choice((r.randrange(0x20, 0x7f), 0x1b, r.randrange(256), r.choice(kc.ALPHA18))) for _ in range(r.randint(0, 6)))
+            out.append((enc, body + r.choice(tails[enc])))
+    return [(e, b) for e, b in out if b]
+
+
 def producible():
     """every name the real decoder returns for a table sequence fed whole (any of the three encodings)"""
     names = set()
@@ -213,6 +258,14 @@ def check(ctx, search=False):
         ctx.count(("segment", it[0], "all", 0, hx(b"".join(it[1]))), tag="stream-extra-encoding")
         for w, fp in b:
             ctx.violation(w, ("segment", it[0], "curtsies", 0, hx(b"".join(it[1]))), fp)
+    # ---- the three naming modes THROUGH the real Input (find_key's own end-of-buffer handling) -----------------------
+    items = input_streams(ctx)
+    for it, b in zip(items, kc.par_map(oracle_input_modes, items, procs, chunksize=50)):
+        ctx.count(("input-modes", it[0], hx(it[1])), tag="input-modes-" + it[0])
+        for w, fp in b:
+            ctx.violation(w, ("input-modes", it[0], hx(it[1])), fp)
+    ctx.exhaustive.append("streams through the real Input under the three naming modes (incomplete character / escape sequence at "
+                          "the end, and complete ones): %d" % len(items))
     # ---- configuration names --------------------------------------------------------------------------------------
     if not search:
         ctx.tie("C20/keymap", [("keymap", n) for n in VALID], line, impl)
@@ -262,6 +315,9 @@ def search(ctx):
 
 def replay(payload):
     c = payload["case"]
+    if c[0] == "input-modes":
+        return dict(case=c, by_mode={m: repr(input_outcome(c[1], unhx(c[2]), m)) for m in MODES},
+                    oracle=oracle_input_modes((c[1], unhx(c[2]))))
     if c[0] == "keymap":
         return dict(case=c, implementation=impl_keymap(c[1]), producible=sorted(producible()))
     if c[0] == "table":
